@@ -243,6 +243,13 @@ func (e *Env) term(x *Sx) string {
 			e.s.decls = append(e.s.decls, fmt.Sprintf("(declare-fun %s (Int) Bool)", uf))
 		}
 		return "(" + uf + " " + e.term(x.List[2]) + ")"
+	case "gonil":
+		// (gonil slice): the Go nil-ness of a slice value (what `s == nil` tests), as opposed to (isnil s) = empty
+		v := e.val(x.List[1])
+		if sl, ok := v.(Slice); ok {
+			return e.s.sliceNil(sl)
+		}
+		e.errf("gonil of %T", v)
 	case "isnil":
 		v := e.val(x.List[1])
 		switch p := v.(type) {
